@@ -4,7 +4,7 @@ from . import c08, c09
 PROPERTY = "C10"
 LEVEL = "exploration"
 SCENARIOS = {"array-percpu": 2, "array-hierarchy": 1, "hash-vars": 2, "dict": 2}
-TIERS = {"quick": {"runs": 9000, "chunk": 30}, "thorough": {"runs": 280000, "chunk": 150}}
+TIERS = {"quick": {"runs": 9000, "chunk": 30}, "thorough": {"runs": 50000000, "wall_s": 600, "chunk": 150, "recheck": 16}}
 RULE = ("the C08 and C09 histories (array, per-CPU and hash variables of every format read "
         "and written from Python; Dict set/get/pop/del/iteration; possible CPUs drawn from "
         "{online, online+1, 2x online, online+124}) run against the kernel stub with a "
